@@ -1,1 +1,94 @@
-From MiniMcmc Require Import Model.Seeds.
+(* C08 — Distinct chains use distinct random streams: for every 64-bit user seed the per-chain
+   seeds of each sampler are pairwise distinct (also when the addition wraps around), so are the
+   generator states the chains start from; within one Metropolis-Hastings sampler no acceptance
+   generator is seeded like any proposal generator; and the rows of a batched HMC draw read
+   disjoint segments of the one batch stream.
+   Models: Model/Seeds.v (mh_seed, gibbs_seed, nuts_seed, mh_prop_seed), Base/Rng.v
+   (seed_from_u64 = SplitMix64 seeding of Xoshiro256++).  Proofs: Proofs/Rng.v, Proofs/Sched.v. *)
+From MiniMcmc Require Import Model.Seeds Model.Sched.
+From MiniMcmc Require Import Proofs.Rng Proofs.Sched.
+Open Scope N_scope.
+
+(* (1) chain seeds are pairwise distinct, for every seed and all chain indices below 2^64 *)
+Theorem C08_seeds_distinct : forall s i j, s < W64 -> i < W64 -> j < W64 -> i <> j ->
+  mh_seed s i <> mh_seed s j /\ gibbs_seed s i <> gibbs_seed s j /\
+  nuts_seed s i <> nuts_seed s j /\ mh_prop_seed s i <> mh_prop_seed s j.
+Proof.
+  intros s i j Hs Hi Hj Hne.
+  repeat split; intro E; apply Hne;
+    [exact (mh_seed_inj s i j Hs Hi Hj E)|exact (gibbs_seed_inj s i j Hs Hi Hj E)
+    |exact (nuts_seed_inj s i j Hs Hi Hj E)|exact (mh_prop_seed_inj s i j Hs Hi Hj E)].
+Qed.
+
+(* (2) and the chains do not start from the same generator state (SplitMix64 seeding is
+   injective on 64-bit seeds) *)
+Theorem C08_states_distinct : forall s i j, s < W64 -> i < W64 -> j < W64 -> i <> j ->
+  seed_from_u64 (mh_seed s i) <> seed_from_u64 (mh_seed s j) /\
+  seed_from_u64 (gibbs_seed s i) <> seed_from_u64 (gibbs_seed s j) /\
+  seed_from_u64 (nuts_seed s i) <> seed_from_u64 (nuts_seed s j) /\
+  seed_from_u64 (mh_prop_seed s i) <> seed_from_u64 (mh_prop_seed s j).
+Proof.
+  intros s i j Hs Hi Hj Hne.
+  exact (conj (mh_states_distinct s i j Hs Hi Hj Hne)
+        (conj (gibbs_states_distinct s i j Hs Hi Hj Hne)
+        (conj (nuts_states_distinct s i j Hs Hi Hj Hne)
+              (mh_prop_states_distinct s i j Hs Hi Hj Hne)))).
+Qed.
+
+(* (3) within a sampler of fewer than 2^63 chains no acceptance generator is seeded like any
+   proposal generator — in particular (i = j) not the one of the same chain *)
+Theorem C08_acc_vs_prop : forall s i j, s < W64 -> i < HALF -> j < HALF ->
+  mh_seed s i <> mh_prop_seed s j /\
+  seed_from_u64 (mh_seed s i) <> seed_from_u64 (mh_prop_seed s j).
+Proof.
+  intros s i j Hs Hi Hj.
+  exact (conj (mh_acc_prop_disjoint s i j Hs Hi Hj) (mh_acc_prop_states_distinct s i j Hs Hi Hj)).
+Qed.
+
+Close Scope N_scope.
+Open Scope nat_scope.
+
+(* (4) HMC draws the momenta of a batch of n chains x d dimensions as one stream segment of n*d
+   values, row (chain) i using positions [i*d, (i+1)*d): different rows read different positions,
+   every position read lies inside the segment, ... *)
+Theorem C08_hmc_rows_disjoint : forall n d i j a b : nat,
+  i <> j -> i < n -> j < n -> a < d -> b < d ->
+  i * d + a <> j * d + b /\ i * d + a < n * d.
+Proof.
+  intros n d i j a b Hij Hi Hj Ha Hb.
+  exact (conj (rows_disjoint n d i j a b Hij Hi Hj Ha Hb) (row_index_in_range n d i a Hi Ha)).
+Qed.
+
+(* ... and (chain, dimension) <-> position is one-to-one and onto: no value of the segment is
+   used twice and none is skipped *)
+Theorem C08_hmc_rows_bijective :
+  (forall d i j a b : nat, a < d -> b < d -> i * d + a = j * d + b -> i = j /\ a = b) /\
+  (forall n d p : nat, p < n * d -> exists i a, i < n /\ a < d /\ p = i * d + a).
+Proof. exact (conj row_index_inj row_index_surj). Qed.
+
+(* ---- non-vacuity *)
+Open Scope N_scope.
+
+(* seed 2^64 - 2, four chains: the MH seeds wrap around and stay pairwise distinct *)
+Example C08_wraparound_concrete :
+  map (mh_seed (W64 - 2)) [0; 1; 2; 3] = [W64 - 1; 0; 1; 2] /\
+  NoDup (map (mh_seed (W64 - 2)) [0; 1; 2; 3]) /\
+  map (mh_prop_seed (W64 - 2)) [0; 1; 2; 3] = [HALF - 1; HALF; HALF + 1; HALF + 2] /\
+  W64 - 2 < W64 /\ 3 < HALF.
+Proof.
+  split; [vm_compute; reflexivity|]. split; [|split; [vm_compute; reflexivity|split; reflexivity]].
+  replace (map (mh_seed (W64 - 2)) [0; 1; 2; 3]) with [W64 - 1; 0; 1; 2] by (vm_compute; reflexivity).
+  repeat constructor; simpl; intros H; repeat (destruct H as [H|H]; [discriminate H|]); exact H.
+Qed.
+
+(* the first generator words of chains 0 and 1 for that seed indeed differ *)
+Example C08_states_concrete :
+  s0 (seed_from_u64 (mh_seed (W64 - 2) 0)) <> s0 (seed_from_u64 (mh_seed (W64 - 2) 1)) /\
+  s0 (seed_from_u64 (mh_seed 42 0)) <> s0 (seed_from_u64 (mh_prop_seed 42 0)).
+Proof. split; vm_compute; discriminate. Qed.
+
+Print Assumptions C08_seeds_distinct.
+Print Assumptions C08_states_distinct.
+Print Assumptions C08_acc_vs_prop.
+Print Assumptions C08_hmc_rows_disjoint.
+Print Assumptions C08_hmc_rows_bijective.
